@@ -376,4 +376,84 @@ theorem slice_unclamped_witness :
 example : sliceRanges false [8, 6, 4] [0, 0, -3, 0] [0, 8, -1, 4] 0 0 0 1 = ([0, 3, 0], [8, 5, 4], true) := by decide
 example : sliceRanges false [1, 8, 8, 4] [0, 2, 0, 0] [1, 6, 8, 4] 0 4 2 0 = ([0, 2, 0, 0], [1, 3, 8, 4], true) := by decide
 
+/-! ## 13. PRELU -/
+
+/-- **PRELU, the catch-all form `Add(Mul(Minimum(x, 0), alpha), Relu(x))`** (no scaling on the `Add`, the `Relu` rescales to the
+    output quantisation, the `Mul` carries the alpha multiplier) is bit-exactly the reference PRELU — for every element, every
+    alpha element (any sign, any size, per-channel tensors included), all zero points, any identity multiplier `(idm, ids)`
+    and alpha multiplier `(am, as)` with non-negative mantissas, output zero point inside the type range. -/
+theorem prelu_min_mul_relu_add_eq (v y zpIn zpA zpOut idm ids am as lo hi : Int) (hz1 : lo ≤ zpOut) (hz2 : zpOut ≤ hi)
+    (hi0 : 0 ≤ idm) (hi1 : idm < 2147483648) (ha0 : 0 ≤ am) (ha1 : am < 2147483648) :
+    preluMinMulReluAdd v y zpIn zpA zpOut idm ids am as lo hi = preluRef v y zpIn zpA zpOut idm ids am as lo hi := by
+  unfold preluMinMulReluAdd preluRef addNoScale mulElem reluScaled minZero
+  by_cases hx : v - zpIn ≥ 0
+  · have e0 : ((if v - zpIn ≤ 0 then v - zpIn else 0) + zpIn + -zpIn) * (y + -zpA) = 0 := by
+      have : (if v - zpIn ≤ 0 then v - zpIn else 0) + zpIn + -zpIn = 0 := by split <;> omega
+      rw [this, Int.zero_mul]
+    have z1 := mbqm_sign_nonneg 0 am as (by omega) ha0 ha1
+    have z2 := mbqm_sign_nonpos 0 am as (by omega) ha0 ha1
+    have p := mbqm_sign_nonneg (v - zpIn) idm ids hx hi0 hi1
+    simp only [e0, hx, if_true]
+    generalize mbqm (v - zpIn) idm ids = P at *
+    generalize mbqm 0 am as = Z at *
+    unfold clamp
+    repeat' split
+    all_goals omega
+  · have e0 : ((if v - zpIn ≤ 0 then v - zpIn else 0) + zpIn + -zpIn) * (y + -zpA) = (v - zpIn) * (y - zpA) := by
+      have : (if v - zpIn ≤ 0 then v - zpIn else 0) + zpIn + -zpIn = v - zpIn := by split <;> omega
+      rw [this]; rfl
+    have p := mbqm_sign_nonpos (v - zpIn) idm ids (by omega) hi0 hi1
+    simp only [e0, hx, if_false]
+    generalize mbqm (v - zpIn) idm ids = P at *
+    generalize mbqm ((v - zpIn) * (y - zpA)) am as = Q at *
+    unfold clamp
+    repeat' split
+    all_goals omega
+
+/-- **PRELU, the form `Maximum(Mul(x, alpha), x)`** (taken for `alpha_max < 1` when IFM and OFM are quantised alike): equals the
+    reference PRELU (identity multiplier of equal scales) for every element of the type range and every alpha element whose
+    real multiplier `(y - zp_alpha) · am · 2^(as - 31)` is at most one — negative alpha elements included. -/
+theorem prelu_mulmax_direct_eq (v y zp zpA am as lo hi : Int) (hlo : lo ≤ v) (hhi : v ≤ hi)
+    (hm0 : 0 ≤ am) (hm1 : am < 2147483648) (hs : as ≤ 0)
+    (hreal : (y - zpA) * am ≤ 2147483648 * (2 : Int) ^ (-as).toNat) :
+    preluMulMaxDirect v y zp zpA am as lo hi = preluRef v y zp zpA zp 1073741824 1 am as lo hi := by
+  unfold preluMulMaxDirect preluRef mulElem
+  have e1 : (v + -zp) * (y + -zpA) = (y - zpA) * (v - zp) := by rw [Int.mul_comm]; rfl
+  have e1' : (v - zp) * (y - zpA) = (y - zpA) * (v - zp) := Int.mul_comm _ _
+  rw [e1]
+  simp only []
+  rw [e1', mbqm_identity]
+  have hlh : lo ≤ hi := by omega
+  have e2 : v - zp + zp = v := by omega
+  by_cases hx : v - zp ≥ 0
+  · simp only [hx, if_true]
+    rw [e2, clamp_id v lo hi hlo hhi]
+    have c : mbqm ((y - zpA) * (v - zp)) am as ≤ v - zp := by
+      by_cases ha : 0 ≤ y - zpA
+      · exact (mbqm_scaled_nonneg (y - zpA) (v - zp) am as ha hx hm0 hs hreal).2
+      · have : (y - zpA) * (v - zp) ≤ 0 := Int.mul_nonpos_of_nonpos_of_nonneg (by omega) hx
+        have := mbqm_sign_nonpos _ am as this hm0 hm1
+        omega
+    have := clamp_mono (mbqm ((y - zpA) * (v - zp)) am as + zp) v lo hi hlh (by omega)
+    rw [clamp_id v lo hi hlo hhi] at this
+    omega
+  · simp only [hx, if_false]
+    have c : v - zp ≤ mbqm ((y - zpA) * (v - zp)) am as := by
+      by_cases ha : 0 ≤ y - zpA
+      · exact (mbqm_scaled_neg (y - zpA) (v - zp) am as ha (by omega) hm0 hs hreal).1
+      · have : 0 ≤ (y - zpA) * (v - zp) := Int.mul_nonneg_of_nonpos_of_nonpos (by omega) (by omega)
+        have := mbqm_sign_nonneg _ am as this hm0 hm1
+        omega
+    have := clamp_mono v (mbqm ((y - zpA) * (v - zp)) am as + zp) lo hi hlh (by omega)
+    rw [clamp_id v lo hi hlo hhi] at this
+    omega
+
+example : convertPrelu true 40 40 (-24) 1006632960 false = some (.lrelu 64) ∧ convertPrelu true 5 5 5 1006632960 true = some .relu ∧
+    convertPrelu true (-100) 100 0 1006632960 true = some (.mulMax false) ∧ convertPrelu true (-100) 127 (-128) 1006632960 false = some .minMulReluAdd ∧
+    convertPrelu false 0 0 0 0 true = some .minMulReluAdd := by decide
+example : (List.range 40).map (fun (i : Nat) => preluMinMulReluAdd ((i : Int) - 20) 90 3 (-5) (-7) 1518500250 0 1717986918 (-3) (-128) 127) =
+    (List.range 40).map (fun (i : Nat) => preluRef ((i : Int) - 20) 90 3 (-5) (-7) 1518500250 0 1717986918 (-3) (-128) 127) := by decide
+example : (List.range 40).map (fun (i : Nat) => preluMulMaxDirect ((i : Int) - 20) (-60) 3 (-5) 1717986918 (-6) (-128) 127) =
+    (List.range 40).map (fun (i : Nat) => preluRef ((i : Int) - 20) (-60) 3 (-5) 3 1073741824 1 1717986918 (-6) (-128) 127) := by decide
+
 end VelaVerif.Props.C01Rewrites2
